@@ -605,6 +605,16 @@ Section MuxProofs.
     - intros -> v -> Hv. cbn [negb]. rewrite (nonempty_true _ Hv). reflexivity.
   Qed.
 
+  (** *** the reserved ACME prefix is exactly "/.well-known/acme-challenge/" (with the slash) *)
+  Theorem reserved_exact : forall sv rq,
+    (reserved_path rq = true <-> exists rest, rq_path rq = acme_prefix ++ rest) /\
+    (reserved_path rq = false -> mux_serve re_match re_replace ip_allow sv rq = serve_nocache sv rq).
+  Proof.
+    intros sv rq. split.
+    - unfold reserved_path. apply is_prefix_spec.
+    - intro H. unfold mux_serve. now rewrite H.
+  Qed.
+
   (** *** router-level C05 clauses, cache-less *)
   Theorem denied_403_nocache : forall sv rq,
     denied sv rq = true -> serve_nocache sv rq = Failed 403.
